@@ -339,6 +339,23 @@ func propTokC(c *Ctx, n int) {
 	}
 }
 
+// registered symbols of three to five characters whose longer proper prefixes are not symbols: every prefix at the end of the
+// input, before a digit, a letter, a blank, itself, and after the complete symbol
+func propLongSymbols(c *Ctx) {
+	for _, sym := range []string{"<!--", "=:~", "=:=:", "->>>>", "<==>", "世世世"} {
+		for _, kind := range []string{"g", "e"} {
+			ops := []cfgOp{{k: "Y", v: []rune(sym), typ: tokenizers.Symbol}}
+			rs := []rune(sym)
+			for l := 1; l <= len(rs); l++ {
+				p := string(rs[:l])
+				for _, in := range []string{p, "a" + p, p + "5", p + "x", p + " ", "a " + p + p, sym + p, p + sym, "(" + p + ")" + p} {
+					runTokCCase(c, kind, 0, ops, []rune(in), "long-symbol")
+				}
+			}
+		}
+	}
+}
+
 func replayTokC(c *Ctx, op string) bool {
 	f := strings.Fields(op)
 	if len(f) != 5 || f[0] != "tokc" {
